@@ -35,8 +35,11 @@ impl SingleSubRaiser<'_, '_> {
         out.push(make_bookend(None));
         for instr in script {
             label_gen.emit_labels_for_instr(&mut out, instr);
-            self.raise_instr(emitter, &instr, |stmt| {
-                out.push(self.make_stmt(instr.difficulty_mask, instr.offset_comment.clone(), stmt))
+            // (an instruction that cannot be rendered falls back to the instructions it was recognized from,
+            //  each of which has its own difficulty mask)
+            let cur_difficulty_mask = std::cell::Cell::new(instr.difficulty_mask);
+            self.raise_instr(emitter, &instr, &cur_difficulty_mask, |stmt| {
+                out.push(self.make_stmt(cur_difficulty_mask.get(), instr.offset_comment.clone(), stmt))
             });
         }
         out.push(make_bookend(end_offset_comment));
@@ -48,24 +51,27 @@ impl SingleSubRaiser<'_, '_> {
         &self,
         emitter: &impl Emitter,
         instr: &RaiseInstr,
+        cur_difficulty_mask: &std::cell::Cell<raw::DifficultyMask>,
         mut emit_stmt: impl FnMut(ast::StmtKind),
     ) {
         // &mut dyn FnMut so it can be passed recursively
-        self._raise_instr(emitter, instr, &mut emit_stmt)
+        self._raise_instr(emitter, instr, cur_difficulty_mask, &mut emit_stmt)
     }
 
     fn _raise_instr(
         &self,
         emitter: &impl Emitter,
         instr: &RaiseInstr,
+        cur_difficulty_mask: &std::cell::Cell<raw::DifficultyMask>,
         emit_stmt: &mut dyn FnMut(ast::StmtKind),
     ) {
+        cur_difficulty_mask.set(instr.difficulty_mask);
         match self.try_raise_intrinsic(instr, emit_stmt) {
             Ok(()) => {},
             Err(CannotRaiseIntrinsic) => match &instr.fallback_expansion {
                 Some(fallback_instrs) => {
                     for child_instr in fallback_instrs {
-                        self._raise_instr(emitter, child_instr, emit_stmt);
+                        self._raise_instr(emitter, child_instr, cur_difficulty_mask, emit_stmt);
                     }
                 },
                 None => {
